@@ -311,8 +311,8 @@ func openFindings() []string {
 	var ids []string
 	for _, f := range loadFindings() {
 		base := f.ID
-		if i := strings.Index(base, "/"); i >= 0 {
-			base = base[:i]
+		if parts := strings.SplitN(base, "-", 3); len(parts) == 3 { // F-C-mixed -> F-C
+			base = parts[0] + "-" + parts[1]
 		}
 		if f.Status == "open" && !seen[base] {
 			seen[base] = true
